@@ -16,6 +16,34 @@ structure SiteOK (N : Nat) (un : Int) (c : Arr) : Prop where
 theorem alpha_upd (un : Int) (c : Arr) (n : Nat) (v : Int) (hv : v ≠ un) : alpha un (upd c n v) = upd (alpha un c) n v := by
   funext x; unfold alpha upd; by_cases h : x = n <;> simp [h, hv]
 
+theorem alpha_neg (un : Int) (c : Arr) (x : Nat) (h : c x < 0) (hun : 0 < un) : alpha un c x = c x := by
+  unfold alpha; have : c x ≠ un := by omega
+  simp [this]
+
+/-- number of unoccupied sites -/
+def unocc (N : Nat) (un : Int) (c : Arr) : Nat := (List.range N).countP (fun x => decide (c x = un))
+
+theorem unocc_congr (N : Nat) (un : Int) (c c' : Arr) (h : ∀ x, c' x = un ↔ c x = un) : unocc N un c' = unocc N un c := by
+  unfold unocc; apply List.countP_congr; intro x _; simp [h x]
+
+/-- the roots of the singleton view are the occupied roots and the unoccupied sites -/
+theorem nroots_alpha (N : Nat) (un : Int) (c : Arr) (hun : 0 < un) : nroots N (alpha un c) = nroots N c + unocc N un c := by
+  unfold nroots unocc
+  rw [← countP_or_disj _ (fun x => decide (c x < 0)) (fun x => decide (c x = un)) (by intro x ⟨a, b⟩; simp at a b; omega)]
+  apply List.countP_congr
+  intro x _
+  unfold alpha
+  by_cases h : c x = un
+  · simp [h]
+  · simp [h]
+
+/-- the counters of the site variant against those of the singleton view, while the neighbours of the new site `nr` are visited:
+    `acc.2.1` is the size of `nr`'s component so far, `acc.2.2` the number of components among occupied sites -/
+structure Rel (N : Nat) (un : Int) (nr : Nat) (acc : Arr × Nat × Nat) (g n g0 : Nat) : Prop where
+  ncomp : n = acc.2.2 + unocc N un acc.1
+  gcc : g = max g0 acc.2.1
+  csize : acc.2.1 = (- acc.1 nr).toNat
+
 /-- following parents from an occupied site never meets an unoccupied one, so the find (with its path compression) is the same
     in both views -/
 theorem rootOf_alpha (N : Nat) (un : Int) : ∀ (f : Nat) (c : Arr) (m : Nat), SiteOK N un c → c m ≠ un →
@@ -128,11 +156,13 @@ theorem rootOf_keeps_root (nr : Nat) : ∀ (f : Nat) (c : Arr) (k : Nat), c nr <
 
 /-- **one neighbour**: in the singleton view, joining the new site `nr` to an occupied neighbour `m` is occupying the bond
     `(nr, m)`; an unoccupied neighbour changes nothing -/
-theorem siteStep_inv (N : Nat) (un : Int) (nr : Nat) (acc : Arr × Nat × Nat) (m : Nat) (E : List (Nat × Nat)) (ρ d : Nat → Nat) (g n : Nat)
-    (ok : SiteOK N un acc.1) (hroot : acc.1 nr < 0) (hnr : nr < N) (hm : m < N) (inv : Inv N E (alpha un acc.1) ρ d g n) :
+theorem siteStep_inv (N : Nat) (un : Int) (nr : Nat) (acc : Arr × Nat × Nat) (m : Nat) (E : List (Nat × Nat)) (ρ d : Nat → Nat) (g n g0 : Nat)
+    (ok : SiteOK N un acc.1) (hroot : acc.1 nr < 0) (hnr : nr < N) (hm : m < N) (inv : Inv N E (alpha un acc.1) ρ d g n)
+    (rel : Rel N un nr acc g n g0) :
     SiteOK N un (siteStep (N + 1) un nr acc m).1 ∧ (siteStep (N + 1) un nr acc m).1 nr < 0 ∧
     (∀ x, (siteStep (N + 1) un nr acc m).1 x = un ↔ acc.1 x = un) ∧
-    ∃ ρ' d' g' n', Inv N (if acc.1 m ≠ un then (nr, m) :: E else E) (alpha un (siteStep (N + 1) un nr acc m).1) ρ' d' g' n' := by
+    ∃ ρ' d' g' n', Inv N (if acc.1 m ≠ un then (nr, m) :: E else E) (alpha un (siteStep (N + 1) un nr acc m).1) ρ' d' g' n' ∧
+      Rel N un nr (siteStep (N + 1) un nr acc m) g' n' g0 := by
   have hun : 0 < un := by rw [ok.un_eq]; omega
   have hnr' : (nr : Int) ≠ un := by rw [ok.un_eq]; omega
   by_cases hmo : acc.1 m ≠ un
@@ -140,7 +170,7 @@ theorem siteStep_inv (N : Nat) (un : Int) (nr : Nat) (acc : Arr × Nat × Nat) (
     have hroot_a : alpha un acc.1 nr < 0 := by unfold alpha; split <;> omega
     have hp1 : rootOf (N + 1) (alpha un acc.1) nr = (alpha un acc.1, nr) := by unfold rootOf; simp [hroot_a]
     have hkeep : (rootOf (N + 1) acc.1 m).1 nr < 0 := rootOf_keeps_root nr _ _ _ hroot
-    obtain ⟨s1, rep1, _, _, _⟩ := rootOf_spec (N + 1) (alpha un acc.1) d m inv.depth inv.rep (by have := inv.dbound m; omega)
+    obtain ⟨s1, rep1, keepA, _, _⟩ := rootOf_spec (N + 1) (alpha un acc.1) d m inv.depth inv.rep (by have := inv.dbound m; omega)
     have hr2 : (rootOf (N + 1) acc.1 m).1 (rootOf (N + 1) acc.1 m).2 < 0 := by
       have h1 := rep1.root m
       rw [← s1, ← e2, e1] at h1
@@ -158,6 +188,24 @@ theorem siteStep_inv (N : Nat) (un : Int) (nr : Nat) (acc : Arr × Nat × Nat) (
         (if (rootOf (N + 1) acc.1 m).2 ≠ nr then join (rootOf (N + 1) (alpha un acc.1) m).1 nr (rootOf (N + 1) acc.1 m).2
          else (rootOf (N + 1) (alpha un acc.1) m).1) := by
       unfold occupyBond; simp only [hp1, e1]; split <;> rfl
+    have hobv : (occupyBond (N + 1) (alpha un acc.1) g n nr m).2 =
+        (if (rootOf (N + 1) acc.1 m).2 ≠ nr then
+          (max g (- (join (rootOf (N + 1) (alpha un acc.1) m).1 nr (rootOf (N + 1) acc.1 m).2) nr).toNat, n - 1)
+         else (g, n)) := by
+      unfold occupyBond; simp only [hp1, e1]; split <;> rfl
+    -- the find leaves the new site's own entry alone
+    have hc2nr : (rootOf (N + 1) acc.1 m).1 nr = acc.1 nr := by
+      have h1 := congrFun e2 nr
+      rw [alpha_neg un _ nr hkeep hun, keepA nr hroot_a, alpha_neg un _ nr hroot hun] at h1
+      exact h1
+    -- the number of components among occupied sites is positive: `nr` is one of their roots
+    have hns : 1 ≤ acc.2.2 := by
+      have h1 := inv.ncomp_eq
+      rw [nroots_alpha N un acc.1 hun, rel.ncomp] at h1
+      have h2 : 0 < nroots N acc.1 := by
+        unfold nroots; rw [List.countP_pos_iff]
+        exact ⟨nr, List.mem_range.2 hnr, by simpa using hroot⟩
+      omega
     obtain ⟨ρ', d', hinv⟩ := occupyBond_inv inv nr m hnr hm
     rw [if_pos hmo, hst]
     by_cases hne : (rootOf (N + 1) acc.1 m).2 ≠ nr
@@ -165,35 +213,58 @@ theorem siteStep_inv (N : Nat) (un : Int) (nr : Nat) (acc : Arr × Nat × Nat) (
       have hne' : nr ≠ (rootOf (N + 1) acc.1 m).2 := fun h => hne h.symm
       obtain ⟨okj, keyj, rootj⟩ := siteOK_join N un _ nr _ ok1 hkeep hr2 hnr hne'
       refine ⟨okj, rootj, fun x => (keyj x).trans (e4 x), ρ', d', (occupyBond (N + 1) (alpha un acc.1) g n nr m).2.1,
-        (occupyBond (N + 1) (alpha un acc.1) g n nr m).2.2, ?_⟩
-      show Inv N ((nr, m) :: E) (alpha un (join (rootOf (N + 1) acc.1 m).1 nr (rootOf (N + 1) acc.1 m).2)) ρ' d' _ _
-      rw [alpha_join un _ nr _ hkeep hr2 hun hnr' hne', e2, ← hob]; exact hinv
+        (occupyBond (N + 1) (alpha un acc.1) g n nr m).2.2, ?_, ?_⟩
+      · show Inv N ((nr, m) :: E) (alpha un (join (rootOf (N + 1) acc.1 m).1 nr (rootOf (N + 1) acc.1 m).2)) ρ' d' _ _
+        rw [alpha_join un _ nr _ hkeep hr2 hun hnr' hne', e2, ← hob]; exact hinv
+      · rw [hobv, if_pos hne]
+        have hjv : join (rootOf (N + 1) (alpha un acc.1) m).1 nr (rootOf (N + 1) acc.1 m).2 nr
+            = join (rootOf (N + 1) acc.1 m).1 nr (rootOf (N + 1) acc.1 m).2 nr := by
+          rw [← e2, ← alpha_join un _ nr _ hkeep hr2 hun hnr' hne', alpha_neg un _ nr rootj hun]
+        have hjn : join (rootOf (N + 1) acc.1 m).1 nr (rootOf (N + 1) acc.1 m).2 nr
+            = acc.1 nr + (rootOf (N + 1) acc.1 m).1 (rootOf (N + 1) acc.1 m).2 := by
+          simp [join, upd, hne', hc2nr]
+        refine ⟨?_, ?_, rfl⟩
+        · show n - 1 = (acc.2.2 - 1) + unocc N un (join (rootOf (N + 1) acc.1 m).1 nr (rootOf (N + 1) acc.1 m).2)
+          rw [unocc_congr N un acc.1 _ (fun x => (keyj x).trans (e4 x))]
+          have := rel.ncomp; omega
+        · show max g _ = max g0 (- join (rootOf (N + 1) acc.1 m).1 nr (rootOf (N + 1) acc.1 m).2 nr).toNat
+          rw [hjv, hjn]
+          have h1 := rel.gcc; have h2 := rel.csize
+          rw [h1, h2]; omega
     · rw [if_neg hne] at hob ⊢
       refine ⟨ok1, hkeep, e4, ρ', d', (occupyBond (N + 1) (alpha un acc.1) g n nr m).2.1,
-        (occupyBond (N + 1) (alpha un acc.1) g n nr m).2.2, ?_⟩
-      show Inv N ((nr, m) :: E) (alpha un (rootOf (N + 1) acc.1 m).1) ρ' d' _ _
-      rw [e2, ← hob]; exact hinv
+        (occupyBond (N + 1) (alpha un acc.1) g n nr m).2.2, ?_, ?_⟩
+      · show Inv N ((nr, m) :: E) (alpha un (rootOf (N + 1) acc.1 m).1) ρ' d' _ _
+        rw [e2, ← hob]; exact hinv
+      · rw [hobv, if_neg hne]
+        refine ⟨?_, rel.gcc, ?_⟩
+        · show n = acc.2.2 + unocc N un (rootOf (N + 1) acc.1 m).1
+          rw [unocc_congr N un acc.1 _ e4]; exact rel.ncomp
+        · show acc.2.1 = (- (rootOf (N + 1) acc.1 m).1 nr).toNat
+          rw [hc2nr]; exact rel.csize
   · have hst : siteStep (N + 1) un nr acc m = acc := by unfold siteStep; rw [if_neg hmo]
     rw [hst, if_neg hmo]
-    exact ⟨ok, hroot, fun _ => Iff.rfl, ρ, d, g, n, inv⟩
+    exact ⟨ok, hroot, fun _ => Iff.rfl, ρ, d, g, n, inv, rel⟩
 
 /-- all the neighbours of the new site -/
 theorem siteFold_inv (N : Nat) (un : Int) (nr : Nat) (hnr : nr < N) : ∀ (nbrs : List Nat) (acc : Arr × Nat × Nat) (E : List (Nat × Nat))
-    (ρ d : Nat → Nat) (g n : Nat), SiteOK N un acc.1 → acc.1 nr < 0 → (∀ m ∈ nbrs, m < N) → Inv N E (alpha un acc.1) ρ d g n →
-    SiteOK N un (nbrs.foldl (siteStep (N + 1) un nr) acc).1 ∧
+    (ρ d : Nat → Nat) (g n g0 : Nat), SiteOK N un acc.1 → acc.1 nr < 0 → (∀ m ∈ nbrs, m < N) → Inv N E (alpha un acc.1) ρ d g n →
+    Rel N un nr acc g n g0 →
+    SiteOK N un (nbrs.foldl (siteStep (N + 1) un nr) acc).1 ∧ (nbrs.foldl (siteStep (N + 1) un nr) acc).1 nr < 0 ∧
     (∀ x, (nbrs.foldl (siteStep (N + 1) un nr) acc).1 x = un ↔ acc.1 x = un) ∧
     ∃ ρ' d' g' n', Inv N (((nbrs.filter (fun m => decide (acc.1 m ≠ un))).map (fun m => (nr, m))).reverse ++ E)
-      (alpha un (nbrs.foldl (siteStep (N + 1) un nr) acc).1) ρ' d' g' n' := by
+      (alpha un (nbrs.foldl (siteStep (N + 1) un nr) acc).1) ρ' d' g' n' ∧
+      Rel N un nr (nbrs.foldl (siteStep (N + 1) un nr) acc) g' n' g0 := by
   intro nbrs
   induction nbrs with
-  | nil => intro acc E ρ d g n ok _ _ inv; exact ⟨ok, fun _ => Iff.rfl, ρ, d, g, n, by simpa using inv⟩
+  | nil => intro acc E ρ d g n g0 ok hroot _ inv rel; exact ⟨ok, hroot, fun _ => Iff.rfl, ρ, d, g, n, by simpa using inv, rel⟩
   | cons m ms ih =>
-    intro acc E ρ d g n ok hroot hb inv
-    obtain ⟨ok1, root1, un1, ρ1, d1, g1, n1, inv1⟩ := siteStep_inv N un nr acc m E ρ d g n ok hroot hnr (hb m List.mem_cons_self) inv
-    obtain ⟨ok2, un2, ρ2, d2, g2, n2, inv2⟩ := ih (siteStep (N + 1) un nr acc m) _ ρ1 d1 g1 n1 ok1 root1
-      (fun x hx => hb x (List.mem_cons_of_mem _ hx)) inv1
+    intro acc E ρ d g n g0 ok hroot hb inv rel
+    obtain ⟨ok1, root1, un1, ρ1, d1, g1, n1, inv1, rel1⟩ := siteStep_inv N un nr acc m E ρ d g n g0 ok hroot hnr (hb m List.mem_cons_self) inv rel
+    obtain ⟨ok2, root2, un2, ρ2, d2, g2, n2, inv2, rel2⟩ := ih (siteStep (N + 1) un nr acc m) _ ρ1 d1 g1 n1 g0 ok1 root1
+      (fun x hx => hb x (List.mem_cons_of_mem _ hx)) inv1 rel1
     simp only [List.foldl_cons]
-    refine ⟨ok2, fun x => (un2 x).trans (un1 x), ρ2, d2, g2, n2, ?_⟩
+    refine ⟨ok2, root2, fun x => (un2 x).trans (un1 x), ρ2, d2, g2, n2, ?_, rel2⟩
     have hf : (ms.filter (fun x => decide ((siteStep (N + 1) un nr acc m).1 x ≠ un))) = ms.filter (fun x => decide (acc.1 x ≠ un)) := by
       apply List.filter_congr; intro x _; simp only [ne_eq, decide_not, un1 x]
     rw [hf] at inv2
@@ -204,14 +275,25 @@ theorem siteFold_inv (N : Nat) (un : Int) (nr : Nat) (hnr : nr < N) : ∀ (nbrs 
       simp only [List.filter_cons, this, Bool.false_eq_true, if_false]
       simpa [hmo] using inv2
 
+/-- between two site occupations: the site variant's counters (`gcc`, `ncomp`: among occupied sites only; both 0 before the
+    first occupation) against those of the singleton view (`g`, `n`) -/
+structure SRel (N : Nat) (un : Int) (c : Arr) (gcc ncomp g n : Nat) : Prop where
+  cnt : n = ncomp + unocc N un c
+  big : g = max 1 gcc
+  pos : (∀ x, c x = un) ∨ 1 ≤ gcc
+
 /-- **occupying one site** (an unoccupied site `nr`): afterwards the singleton view satisfies the bond invariant for the working
-    network extended by the bonds from `nr` to its already occupied neighbours; only `nr` changed its occupation status -/
+    network extended by the bonds from `nr` to its already occupied neighbours; only `nr` changed its occupation status; and the
+    site variant's own counters stay in step with those of the singleton view -/
 theorem occupySite_inv (N : Nat) (un : Int) (c : Arr) (gcc ncomp nr : Nat) (nbrs : List Nat) (E : List (Nat × Nat)) (ρ d : Nat → Nat) (g n : Nat)
-    (ok : SiteOK N un c) (hnr : nr < N) (hun : c nr = un) (hb : ∀ m ∈ nbrs, m < N) (inv : Inv N E (alpha un c) ρ d g n) :
+    (ok : SiteOK N un c) (hnr : nr < N) (hun : c nr = un) (hb : ∀ m ∈ nbrs, m < N) (inv : Inv N E (alpha un c) ρ d g n)
+    (srel : SRel N un c gcc ncomp g n) :
     SiteOK N un (occupySite (N + 1) un c gcc ncomp nr nbrs).1 ∧
     (∀ x, (occupySite (N + 1) un c gcc ncomp nr nbrs).1 x = un ↔ (c x = un ∧ x ≠ nr)) ∧
     ∃ ρ' d' g' n', Inv N (((nbrs.filter (fun m => decide (m = nr ∨ c m ≠ un))).map (fun m => (nr, m))).reverse ++ E)
-      (alpha un (occupySite (N + 1) un c gcc ncomp nr nbrs).1) ρ' d' g' n' := by
+      (alpha un (occupySite (N + 1) un c gcc ncomp nr nbrs).1) ρ' d' g' n' ∧
+      SRel N un (occupySite (N + 1) un c gcc ncomp nr nbrs).1 (occupySite (N + 1) un c gcc ncomp nr nbrs).2.1
+        (occupySite (N + 1) un c gcc ncomp nr nbrs).2.2 g' n' := by
   have hunpos : un = N + 1 := ok.un_eq
   -- the new singleton
   have ok0 : SiteOK N un (upd c nr (-1)) := by
@@ -233,11 +315,29 @@ theorem occupySite_inv (N : Nat) (un : Int) (c : Arr) (gcc ncomp nr : Nat) (nbrs
     · subst hx'; simp [hun]
     · simp [hx']
   have hroot0 : upd c nr (-1) nr < 0 := by simp [upd]
-  obtain ⟨ok1, un1, ρ1, d1, g1, n1, inv1⟩ := siteFold_inv N un nr hnr nbrs (upd c nr (-1), 1, ncomp + 1) E ρ d g n ok0 hroot0 hb
-    (by rw [ha0]; exact inv)
+  -- one unoccupied site fewer
+  have hu0 : unocc N un (upd c nr (-1)) + 1 = unocc N un c := by
+    unfold unocc
+    apply countP_flip_one _ (fun x => decide (c x = un)) (fun x => decide (upd c nr (-1) x = un)) nr
+      (List.mem_range.2 hnr) List.nodup_range
+    · simp [hun]
+    · simp [upd]; omega
+    · intro x hx; simp [upd, hx]
+  have rel0 : Rel N un nr (upd c nr (-1), 1, ncomp + 1) g n g := by
+    refine ⟨?_, ?_, ?_⟩
+    · show n = (ncomp + 1) + unocc N un (upd c nr (-1))
+      have := srel.cnt; omega
+    · show g = max g 1
+      have := srel.big; omega
+    · show 1 = (- upd c nr (-1) nr).toNat
+      simp [upd]
+  obtain ⟨ok1, root1, un1, ρ1, d1, g1, n1, inv1, rel1⟩ := siteFold_inv N un nr hnr nbrs (upd c nr (-1), 1, ncomp + 1) E ρ d g n g ok0 hroot0 hb
+    (by rw [ha0]; exact inv) rel0
   have harr : (occupySite (N + 1) un c gcc ncomp nr nbrs).1 = (nbrs.foldl (siteStep (N + 1) un nr) (upd c nr (-1), 1, ncomp + 1)).1 := rfl
-  rw [harr]
-  refine ⟨ok1, ?_, ρ1, d1, g1, n1, ?_⟩
+  have hg : (occupySite (N + 1) un c gcc ncomp nr nbrs).2.1 = max gcc (nbrs.foldl (siteStep (N + 1) un nr) (upd c nr (-1), 1, ncomp + 1)).2.1 := rfl
+  have hn : (occupySite (N + 1) un c gcc ncomp nr nbrs).2.2 = (nbrs.foldl (siteStep (N + 1) un nr) (upd c nr (-1), 1, ncomp + 1)).2.2 := rfl
+  rw [harr, hg, hn]
+  refine ⟨ok1, ?_, ρ1, d1, g1, n1, ?_, ?_⟩
   · intro x; rw [un1 x]; simp only [upd]
     by_cases hx' : x = nr
     · subst hx'; simp; omega
@@ -249,5 +349,7 @@ theorem occupySite_inv (N : Nat) (un : Int) (c : Arr) (gcc ncomp nr : Nat) (nbrs
       · subst hx'; simp; omega
       · simp [hx']
     rw [hf] at inv1; exact inv1
+  · have h1 := rel1.gcc; have h2 := rel1.csize; have h3 := srel.big
+    refine ⟨rel1.ncomp, by omega, Or.inr (by omega)⟩
 
 end UF
